@@ -575,6 +575,15 @@ func (env *Env) assign(s *Stmt) {
 		if r.T == TInt {
 			rf = float64(r.I)
 		}
+		if r.T == TRTime {
+			// an RTIME read as FLOAT is its number of seconds (fractions kept)
+			if s.Op != "=" {
+				env.abort("float op " + s.Op + " with RTIME operand")
+				return
+			}
+			rf = float64(r.D) / 1000
+			env.MixedNumeric++
+		}
 		switch s.Op {
 		case "=":
 			l.F = rf
@@ -700,11 +709,12 @@ func (env *Env) assign(s *Stmt) {
 			}
 			l.I = int64(uint64(l.I) << uint(ri))
 		case ">>=":
-			if ri < 0 || ri > 63 || l.I < 0 {
-				env.abort("right shift of negative / count out of range")
+			if ri < 0 || ri > 63 {
+				env.abort("shift count out of range")
 				return
 			}
-			l.I = int64(uint64(l.I) >> uint(ri))
+			// INTEGER is a signed 64-bit type: the shift is arithmetic (the sign is kept, floor(x / 2^n))
+			l.I >>= uint(ri)
 		case "rol=":
 			if ri < 0 || ri > 63 {
 				env.abort("rotate count out of range")
